@@ -25,8 +25,8 @@ AllocBound(n) == 256 * n + 8192
 
 V(l, why) == PrintT(<<"VIOLATION-AT", l, Prop, why>>)
 D(l, what) == PrintT(<<"DRIFT-AT", l, Prop, what>>)
-\* Check(cond, report): report is evaluated (printed) when cond is false; always TRUE
-Need(cond, report) == cond \/ report
+\* Need(cond, report): report is evaluated (printed) when cond is false; always TRUE
+Need(cond, report) == IF cond THEN TRUE ELSE report
 
 SkipPaths(r) == <<<<"skip", r.skip>>, <<"len", r.len>>, <<"split", r.split>>, <<"opaque", r.opaque>>>>
 
@@ -113,9 +113,9 @@ Judge(l, r) ==
 
 VARIABLE l
 Init == l = 1
+\* (Judge is evaluated as an expression, inside IF: in action position TLC would split its disjunctions)
 Next == /\ l <= Len(Rec)
-        /\ Judge(l, Rec[l])
-        /\ l' = l + 1
+        /\ l' = l + (IF Judge(l, Rec[l]) THEN 1 ELSE 1)
 Spec == Init /\ [][Next]_l
 
 Accepted == \/ TLCGet("stats").diameter - 1 = Len(Rec)
